@@ -157,7 +157,7 @@ type world struct {
 	db        *crashkv.DB
 	mgr       *account.Manager
 	accts     [2]*account.Account
-	progs     [2][]*account.CtrlProgram // 3 receive addresses + 1 change address
+	progs     [2][]*account.CtrlProgram // 3 receive addresses, then 2 change addresses (the last one only used by the chain part)
 	progOwner map[string]int
 	counter   uint64
 
@@ -177,8 +177,8 @@ func newWorld(g *global, id int) (*world, error) {
 		return nil, err
 	}
 	for a := 0; a < 2; a++ {
-		for i := 0; i < 4; i++ {
-			cp, err := w.mgr.CreateAddress(w.accts[a].ID, i == 3)
+		for i := 0; i < 5; i++ {
+			cp, err := w.mgr.CreateAddress(w.accts[a].ID, i >= 3)
 			if err != nil {
 				return nil, err
 			}
@@ -206,42 +206,20 @@ func fundingAmounts(shape int, r uint64) []uint64 {
 	return out
 }
 
+// planned is one wallet output of a funding set before it is written to the wallet.
+type planned struct {
+	wutxo
+	vote     bool
+	partKey  *[2]int
+	immature bool
+	addr     int // index into progs[Acct]
+}
+
 // fund replaces the wallet's outputs by the funding set of the case.
 func (w *world) fund(c tcase) error {
-	// drop the previous case's outputs
-	for _, k := range w.db.Keys([]byte(account.UTXOPreFix)) {
-		w.db.Delete(k)
-	}
-	if len(w.unconfirmed) > 0 {
-		w.mgr.RemoveUnconfirmedUtxo(w.unconfirmed)
-		w.unconfirmed = nil
-	}
-	w.utxos = map[bc.Hash]*wutxo{}
-	w.particular = map[[2]int]bc.Hash{}
-	w.counter++
-
-	type planned struct {
-		wutxo
-		vote     bool
-		partKey  *[2]int
-		immature bool
-	}
 	var plan []planned
-	var outs []*types.TxOutput
-	assetOf := func(src int) bc.AssetID {
-		if src == srcX {
-			return w.g.assetX
-		}
-		return *consensus.BTMAssetID
-	}
 	add := func(p planned, slot int) {
-		cp := w.progs[p.Acct][slot%4]
-		p.Program = cp.ControlProgram
-		if p.vote {
-			outs = append(outs, types.NewVoteOutput(assetOf(p.Src), p.Amount, cp.ControlProgram, w.g.voteKey, nil))
-		} else {
-			outs = append(outs, types.NewOriginalTxOutput(assetOf(p.Src), p.Amount, cp.ControlProgram, nil))
-		}
+		p.addr = slot % 4
 		plan = append(plan, p)
 	}
 	req := requested(c.List)
@@ -276,6 +254,38 @@ func (w *world) fund(c tcase) error {
 		add(planned{wutxo: wutxo{Acct: a, Src: srcBTM, Amount: 50 * unitB, Mature: false}, immature: true}, slot)
 		slot++
 	}
+	return w.install(plan, c.Place)
+}
+
+// install drops the previous case's wallet outputs and writes the planned ones: they are the outputs of
+// one never-mined funding transaction, recorded the way the wallet's indexer records them.
+func (w *world) install(plan []planned, place int) error {
+	for _, k := range w.db.Keys([]byte(account.UTXOPreFix)) {
+		w.db.Delete(k)
+	}
+	if len(w.unconfirmed) > 0 {
+		w.mgr.RemoveUnconfirmedUtxo(w.unconfirmed)
+		w.unconfirmed = nil
+	}
+	w.utxos = map[bc.Hash]*wutxo{}
+	w.particular = map[[2]int]bc.Hash{}
+	w.counter++
+
+	var outs []*types.TxOutput
+	for i := range plan {
+		p := &plan[i]
+		asset := *consensus.BTMAssetID
+		if p.Src == srcX {
+			asset = w.g.assetX
+		}
+		cp := w.progs[p.Acct][p.addr]
+		p.Program = cp.ControlProgram
+		if p.vote {
+			outs = append(outs, types.NewVoteOutput(asset, p.Amount, cp.ControlProgram, w.g.voteKey, nil))
+		} else {
+			outs = append(outs, types.NewOriginalTxOutput(asset, p.Amount, cp.ControlProgram, nil))
+		}
+	}
 
 	var src [32]byte
 	copy(src[:], fmt.Sprintf("c27 funding %d/%d", w.id, w.counter))
@@ -303,12 +313,7 @@ func (w *world) fund(c tcase) error {
 		if p.immature {
 			u.ValidHeight = w.g.height + 5
 		}
-		cp := w.progs[p.Acct][0]
-		for _, q := range w.progs[p.Acct] {
-			if bytes.Equal(q.ControlProgram, u.ControlProgram) {
-				cp = q
-			}
-		}
+		cp := w.progs[p.Acct][p.addr]
 		u.AccountID, u.Address, u.ControlProgramIndex, u.Change = cp.AccountID, cp.Address, cp.KeyIndex, cp.Change
 
 		rec := p.wutxo
@@ -316,8 +321,8 @@ func (w *world) fund(c tcase) error {
 		if p.partKey != nil {
 			w.particular[*p.partKey] = u.OutputID
 		}
-		confirmed := p.immature || c.Place == placeConfirmed || c.Place == placeConfirmedFlag || c.Place == placeBothFlag
-		unconfirmed := !p.immature && (c.Place == placeUnconfirmedFlag || c.Place == placeBothFlag)
+		confirmed := p.immature || place == placeConfirmed || place == placeConfirmedFlag || place == placeBothFlag
+		unconfirmed := !p.immature && (place == placeUnconfirmedFlag || place == placeBothFlag)
 		if confirmed {
 			raw, err := json.Marshal(u)
 			if err != nil {
